@@ -9,4 +9,7 @@ extern volatile int a_armed;
 extern int a_count, a_fail_at, a_failed, a_nlive, a_foreign_free;
 /* default-handler observation (C13) */
 extern void (*g_default_handler_hook)(const char *msg, void *ptr, errno_t err);
+/* process-wide state / non-reentrant libc calls made while a guarded library call runs (C12) */
+extern const char *volatile g_globstate_sym;
+extern volatile int g_globstate_calls;
 #endif
